@@ -96,6 +96,7 @@ def _concat(objs, axis=0, sort=False, **kw):
 def _series(data=None, index=None, **kw):
     from .framemodel import Ser, Unsupported
 
+    kw = {k: v for k, v in kw.items() if k not in ("name", "dtype")}  # the label and the element type are not modelled
     if kw:
         raise Unsupported("Series options")
     if data is None:
@@ -505,6 +506,17 @@ class Interp:
         if isinstance(target, PartialRef):
             return self.call_value(target.target, list(target.args) + list(args), {**target.kwargs, **kwargs}, ev, node)
         if isinstance(target, Closure):
+            if target.fn.decorators and any(d.split("(")[0].split(".")[-1] in ("lru_cache", "cache") for d in target.fn.decorators):
+                # a cache on a nested function lives as long as this definition of it: equal arguments, same object back
+                key = (tuple(args), tuple(sorted((kwargs or {}).items())))
+                try:
+                    hash(key)
+                except TypeError:
+                    raise EvalRaise("TypeError", node)
+                memo = target.__dict__.setdefault("memo", {})
+                if key not in memo:
+                    memo[key] = self._call(target.fn, args, kwargs, None, target.env, target.defaults)
+                return memo[key]
             return self.call(target.fn, args, kwargs, outer_env=target.env, defaults=target.defaults)
         if isinstance(target, FuncRef):
             if target.fn.qualname in self.stubs:
